@@ -877,4 +877,484 @@ theorem _parse_attribute_block_eq (env : DepEnv) (lines : List Str) (atoms : Dic
     have : pyEq l py!"M  END" = false := by simpa [pyEq, PyCmp.eq, endLine] using he
     simp_all [Kind.tag]
 
+/-! ### item 1: `int()` of a right-aligned decimal field -/
+
+theorem isAsciiDigit_eq (c : Char) : isAsciiDigit c = c.isDigit := by
+  unfold isAsciiDigit Char.isDigit
+  simp only [Char.le_def, UInt32.le_iff_toNat_le]
+  rw [Bool.eq_iff_iff]
+  simp
+
+theorem not_space_of_digit (c : Char) (h : c.isDigit = true) : isPySpace c = false := by
+  by_contra hs
+  rw [Bool.not_eq_false] at hs
+  unfold isPySpace at hs
+  simp only [decide_eq_true_eq] at hs
+  rcases hs with rfl|rfl|rfl|rfl|rfl|rfl|rfl|rfl|rfl|rfl|rfl|rfl <;> exact absurd h (by decide)
+
+theorem rstrip_eq_self (ds : Str) (h : ∀ hne : ds ≠ [], isPySpace (ds.getLast hne) = false) : rstrip ds = ds := by
+  unfold rstrip
+  have := (List.rdropWhile_eq_self_iff (p := isPySpace) (l := ds)).2 (by simpa using h)
+  simpa [List.rdropWhile] using this
+
+
+theorem digit_ne (c : Char) (h : c.isDigit = true) : c ≠ '-' ∧ c ≠ '+' ∧ c ≠ '_' := by
+  refine ⟨?_, ?_, ?_⟩ <;> rintro rfl <;> exact absurd h (by decide)
+
+theorem isInfixOf_uu (ds : Str) (hd : ∀ c ∈ ds, c ≠ '_') : isInfixOf (py!"__") ds = false := by
+  unfold isInfixOf
+  rw [List.any_eq_false]
+  intro t ht
+  rw [List.mem_tails] at ht
+  cases t with
+  | nil => simp
+  | cons c t =>
+    have : c ∈ ds := ht.subset (by simp)
+    have := hd c this
+    simp only [List.isPrefixOf]
+    intro e
+    simp at e
+    exact absurd e.1.symm this
+
+/-- the sign split of `parseInt` -/
+def signSplit (t : Str) : Bool × Str :=
+  match t with
+  | '-' :: r => (true, r)
+  | '+' :: r => (false, r)
+  | r => (false, r)
+
+theorem parseInt_unfold (s : Str) : parseInt s =
+    (let p := signSplit (rstrip (s.dropWhile isPySpace))
+     let okUnderscores : Bool := p.2.head? ≠ some '_' ∧ p.2.getLast? ≠ some '_' ∧ isInfixOf (py!"__") p.2 = false
+     let ds' := p.2.filter (· ≠ '_')
+     if ds' = [] ∨ ds'.all isAsciiDigit = false ∨ okUnderscores = false ∨ ds'.length > intMaxStrDigits then throw .value
+     else pure (if p.1 then - (digitsToNat ds' : Int) else (digitsToNat ds' : Int))) := by
+  rfl
+
+theorem signSplit_minus (r : Str) : signSplit ('-' :: r) = (true, r) := rfl
+
+theorem signSplit_digit (d : Char) (r : Str) (h1 : d ≠ '-') (h2 : d ≠ '+') : signSplit (d :: r) = (false, d :: r) := by
+  unfold signSplit
+  split
+  · rename_i h; simp at h; exact absurd h.1 h1
+  · rename_i h; simp at h; exact absurd h.1 h2
+  · rfl
+
+
+theorem digitsToNat_eq (ds : Str) : digitsToNat ds = Nat.ofDigitChars 10 ds 0 := rfl
+
+/-- `int()` of optional blanks, an optional minus sign and a non-empty run of at most 4300 ASCII digits -/
+theorem parseInt_digits (neg : Bool) (sp ds : Str) (hsp : ∀ c ∈ sp, isPySpace c = true) (hne : ds ≠ [])
+    (hd : ∀ c ∈ ds, c.isDigit = true) (hlen : ds.length ≤ 4300) :
+    parseInt (sp ++ (if neg then '-' :: ds else ds)) =
+      .ok (if neg then - (digitsToNat ds : Int) else (digitsToNat ds : Int)) := by
+  obtain ⟨d, ds', rfl⟩ := List.exists_cons_of_ne_nil hne
+  have hd0 := hd d (by simp)
+  have hnu : ∀ c ∈ d :: ds', c ≠ '_' := fun c hc => (digit_ne c (hd c hc)).2.2
+  have hlast : isPySpace ((d :: ds').getLast (by simp)) = false :=
+    not_space_of_digit _ (hd _ (List.getLast_mem _))
+  have hfilter : (d :: ds').filter (fun c => decide (c ≠ '_')) = d :: ds' := by
+    rw [List.filter_eq_self]; intro c hc; simpa using hnu c hc
+  have hall : (d :: ds').all isAsciiDigit = true := by
+    rw [List.all_eq_true]; intro c hc; rw [isAsciiDigit_eq]; exact hd c hc
+  have hhead : (d :: ds').head? ≠ some '_' := by simpa using hnu d (by simp)
+  have hgl : (d :: ds').getLast? ≠ some '_' := by
+    rw [List.getLast?_eq_some_getLast (by simp)]
+    intro e; injection e with e
+    exact hnu _ (List.getLast_mem _) e
+  have hinf := isInfixOf_uu (d :: ds') hnu
+  have hlen' : ¬ (d :: ds').length > intMaxStrDigits := by unfold intMaxStrDigits; omega
+  have hsplit : signSplit (rstrip ((sp ++ (if neg then '-' :: d :: ds' else d :: ds')).dropWhile isPySpace)) =
+      (neg, d :: ds') := by
+    cases neg
+    · have h1 : (sp ++ d :: ds').dropWhile isPySpace = d :: ds' := by
+        rw [List.dropWhile_append_of_pos hsp, List.dropWhile_cons_of_neg (by simp [not_space_of_digit d hd0])]
+      have h2 : rstrip (d :: ds') = d :: ds' := rstrip_eq_self _ (fun _ => hlast)
+      simp only [Bool.false_eq_true, if_false, h1, h2]
+      exact signSplit_digit d ds' (digit_ne d hd0).1 (digit_ne d hd0).2.1
+    · have h1 : (sp ++ '-' :: d :: ds').dropWhile isPySpace = '-' :: d :: ds' := by
+        rw [List.dropWhile_append_of_pos hsp, List.dropWhile_cons_of_neg (by decide)]
+      have h2 : rstrip ('-' :: d :: ds') = '-' :: d :: ds' :=
+        rstrip_eq_self _ (fun _ => by simpa [List.getLast_cons] using hlast)
+      simp only [if_true, h1, h2]
+      rfl
+  rw [parseInt_unfold]
+  simp only [hsplit, hfilter, hall, hinf, hlen']
+  simp
+  exact ⟨hnu d (by simp), hgl⟩
+
+
+theorem pyStrInt_eq (n : Int) :
+    pyStrInt n = if 0 ≤ n then Nat.toDigits 10 n.toNat else '-' :: Nat.toDigits 10 (-n).toNat := by
+  unfold pyStrInt
+  rw [Int.toString_eq_repr, Int.repr_eq_if]
+  split <;> simp
+
+/-- `int(str(n)) == n`, also with leading blanks (right-aligned fields) -/
+theorem parseInt_pyStrInt (sp : Str) (hsp : ∀ c ∈ sp, isPySpace c = true) (n : Int) (hn : n.natAbs < 10 ^ 4300) :
+    parseInt (sp ++ pyStrInt n) = .ok n := by
+  rw [pyStrInt_eq]
+  by_cases h : 0 ≤ n
+  · have := parseInt_digits false sp (Nat.toDigits 10 n.toNat) hsp Nat.toDigits_ne_nil
+      (fun c hc => Nat.isDigit_of_mem_toDigits (by decide) (by decide) hc)
+      ((Nat.length_toDigits_le_iff (by decide) (by decide)).2 (by omega))
+    simp only [Bool.false_eq_true, if_false, digitsToNat_eq, Nat.ofDigitChars_ten_toDigits] at this
+    rw [if_pos h, this]
+    congr 1; omega
+  · have := parseInt_digits true sp (Nat.toDigits 10 (-n).toNat) hsp Nat.toDigits_ne_nil
+      (fun c hc => Nat.isDigit_of_mem_toDigits (by decide) (by decide) hc)
+      ((Nat.length_toDigits_le_iff (by decide) (by decide)).2 (by omega))
+    simp only [if_true, digitsToNat_eq, Nat.ofDigitChars_ten_toDigits] at this
+    rw [if_neg h, this]
+    congr 1; omega
+
+theorem pyStrInt_ne_nil (n : Int) : pyStrInt n ≠ [] := by
+  rw [pyStrInt_eq]; split <;> simp
+
+theorem pyStrInt_not_blank (sp : Str) (n : Int) : (sp ++ pyStrInt n).all (· = ' ') = false := by
+  rw [pyStrInt_eq]
+  have key : ∀ m, (Nat.toDigits 10 m).all (· = ' ') = false := by
+    intro m
+    obtain ⟨d, ds, h⟩ := List.exists_cons_of_ne_nil (Nat.toDigits_ne_nil (n := m) (b := 10))
+    have hd : d.isDigit = true := Nat.isDigit_of_mem_toDigits (b := 10) (n := m) (by decide) (by decide) (by rw [h]; simp)
+    have : d ≠ ' ' := by rintro rfl; exact absurd hd (by decide)
+    rw [h]; simp [this]
+  split
+  · simp [List.all_append, key]
+  · simp [List.all_append, key]
+
+theorem fieldInt_blank (s : Str) (h : ∀ c ∈ s, c = ' ') : fieldInt s = .ok 0 := by
+  unfold fieldInt
+  have : s.all (· = ' ') = true := by simpa using h
+  simp [this]
+
+theorem fieldInt_padLeft (n : Int) (w : Nat) (hn : n.natAbs < 10 ^ 4300) :
+    fieldInt (padLeft (pyStrInt n) w ' ') = .ok n := by
+  unfold fieldInt padLeft
+  rw [pyStrInt_not_blank]
+  simp only [Bool.false_eq_true, if_false]
+  exact parseInt_pyStrInt _ (by intro c hc; rw [List.mem_replicate] at hc; rw [hc.2]; decide) n hn
+
+/-- **item 1**: a blank field is 0; a right-aligned decimal field is its number -/
+theorem _to_int_blank (env : DepEnv) (s : Str) (h : ∀ c ∈ s, c = ' ') : _to_int env s = .ok 0 := by
+  rw [_to_int_eq]; exact fieldInt_blank s h
+
+theorem _to_int_ok (env : DepEnv) (n : Int) (w : Nat) (hn : n.natAbs < 10 ^ 4300) :
+    _to_int env (padLeft (pyStrInt n) w ' ') = .ok n := by
+  rw [_to_int_eq]; exact fieldInt_padLeft n w hn
+
+/-- the three-column rendering of a number -/
+def fmt3 (n : Int) : Str := padLeft (pyStrInt n) 3 ' '
+
+theorem length_pyStrInt_le3 (n : Int) (h1 : -99 ≤ n) (h2 : n ≤ 999) : (pyStrInt n).length ≤ 3 := by
+  rw [pyStrInt_eq]
+  split
+  · exact (Nat.length_toDigits_le_iff (by decide) (by decide)).2 (by omega)
+  · have := (Nat.length_toDigits_le_iff (b := 10) (n := (-n).toNat) (k := 2) (by decide) (by decide)).2 (by omega)
+    simp only [List.length_cons]; omega
+
+theorem length_fmt3 (n : Int) (h1 : -99 ≤ n) (h2 : n ≤ 999) : (fmt3 n).length = 3 := by
+  have := length_pyStrInt_le3 n h1 h2
+  simp only [fmt3, padLeft, List.length_append, List.length_replicate]; omega
+
+theorem fieldInt_fmt3 (n : Int) (h1 : -99 ≤ n) (h2 : n ≤ 999) : fieldInt (fmt3 n) = .ok n :=
+  fieldInt_padLeft n 3 (by
+    have : (999 : Nat) < 10 ^ 4300 := by
+      calc (999 : Nat) < 10 ^ 3 := by norm_num
+        _ ≤ 10 ^ 4300 := Nat.pow_le_pow_right (by norm_num) (by norm_num)
+    omega)
+
+
+/-! ### item 2: property lines as the format renders them -/
+
+/-- one entry ` aaa vvv` (8 columns) -/
+def renderEntry (e : Nat × Int) : Str := ' ' :: fmt3 e.1 ++ ' ' :: fmt3 e.2
+
+/-- `M  XXXnn8 aaa vvv …`: six-column tag, three-column count, then the entries -/
+def renderProp (tag : Str) (es : List (Nat × Int)) : Str :=
+  tag ++ fmt3 es.length ++ es.flatMap renderEntry
+
+/-- the numbers fit their three columns -/
+def EntryFits (e : Nat × Int) : Prop := e.1 ≤ 999 ∧ -99 ≤ e.2 ∧ e.2 ≤ 999
+
+theorem length_renderEntry (e : Nat × Int) (h : EntryFits e) : (renderEntry e).length = 8 := by
+  obtain ⟨h1, h2, h3⟩ := h
+  simp only [renderEntry, List.length_cons, List.length_append, length_fmt3 e.1 (by omega) (by omega),
+    length_fmt3 e.2 h2 h3]
+
+theorem drop_len_add {α : Type} (l₁ l₂ : List α) (n k : Nat) (h : l₁.length = n) :
+    (l₁ ++ l₂).drop (n + k) = l₂.drop k := by
+  subst h
+  rw [List.drop_append, List.drop_eq_nil_of_le (by omega)]
+  simp
+
+theorem drop_flatMap_renderEntry (es : List (Nat × Int)) (h : ∀ e ∈ es, EntryFits e) (i : Nat) :
+    (es.flatMap renderEntry).drop (8 * i) = (es.drop i).flatMap renderEntry := by
+  induction es generalizing i with
+  | nil => simp
+  | cons e es ih =>
+    cases i with
+    | zero => simp
+    | succ i =>
+      have hl := length_renderEntry e (h e (by simp))
+      rw [List.flatMap_cons, List.drop_succ_cons, ← ih (fun x hx => h x (by simp [hx]))]
+      rw [show 8 * (i + 1) = 8 + 8 * i by omega, drop_len_add _ _ _ _ hl]
+
+theorem mapM_ok {α β : Type} (l : List α) (f : α → M β) (g : α → β) (h : ∀ x ∈ l, f x = .ok (g x)) :
+    l.mapM f = .ok (l.map g) := by
+  induction l with
+  | nil => rfl
+  | cons x l ih =>
+    rw [List.mapM_cons, h x (by simp), ih (fun y hy => h y (by simp [hy]))]; rfl
+
+theorem mapM_reject {α β : Type} (l : List α) (f : α → M β) (e : Err)
+    (h : ∀ x ∈ l, (∃ y, f x = .ok y) ∨ f x = .error e) (hex : ∃ x ∈ l, f x = .error e) :
+    l.mapM f = .error e := by
+  induction l with
+  | nil => simp at hex
+  | cons x l ih =>
+    rw [List.mapM_cons]
+    rcases h x (by simp) with ⟨y, hy⟩ | hx
+    · rw [hy]
+      obtain ⟨z, hz, hze⟩ := hex
+      have hzl : z ∈ l := by
+        rcases List.mem_cons.1 hz with rfl | hzl
+        · rw [hy] at hze; cases hze
+        · exact hzl
+      rw [ih (fun w hw => h w (by simp [hw])) ⟨z, hzl, hze⟩]; rfl
+    · rw [hx]; rfl
+
+theorem field_renderProp_count (tag : Str) (htag : tag.length = 6) (es : List (Nat × Int)) (hlen : es.length ≤ 999) :
+    field (renderProp tag es) 6 3 = fmt3 es.length := by
+  unfold field renderProp
+  rw [List.append_assoc, List.drop_left' htag, List.take_left' (length_fmt3 _ (by omega) (by omega))]
+
+theorem drop_renderProp (tag : Str) (htag : tag.length = 6) (es : List (Nat × Int)) (hlen : es.length ≤ 999)
+    (h : ∀ e ∈ es, EntryFits e) (i : Nat) :
+    (renderProp tag es).drop (9 + 8 * i) = (es.drop i).flatMap renderEntry := by
+  unfold renderProp
+  have : (tag ++ fmt3 es.length).length = 9 := by
+    rw [List.length_append, htag, length_fmt3 _ (by omega) (by omega)]
+  rw [drop_len_add _ _ _ _ this, drop_flatMap_renderEntry es h]
+
+theorem propEntry_renderProp (atoms : Dict Int Attrs) (tag : Str) (htag : tag.length = 6) (es : List (Nat × Int))
+    (hlen : es.length ≤ 999) (h : ∀ e ∈ es, EntryFits e) (i : Nat) (hi : i < es.length) :
+    propEntry atoms (renderProp tag es) i =
+      if atoms.contains ((es[i].1 : Int) - 1) then .ok ((es[i].1 : Int) - 1, es[i].2) else .error parserException := by
+  have hf := h es[i] (List.getElem_mem hi)
+  have hd : es.drop i = es[i] :: es.drop (i + 1) := List.drop_eq_getElem_cons hi
+  have ha : field (renderProp tag es) (10 + 8 * i) 3 = fmt3 es[i].1 := by
+    unfold field
+    rw [show 10 + 8 * i = (9 + 8 * i) + 1 by omega, ← List.drop_drop, drop_renderProp tag htag es hlen h, hd,
+      List.flatMap_cons]
+    simp only [renderEntry, List.cons_append, List.drop_succ_cons, List.drop_zero, List.append_assoc]
+    exact List.take_left' (length_fmt3 _ (by omega) (by have := hf.1; omega))
+  have hv : field (renderProp tag es) (14 + 8 * i) 3 = fmt3 es[i].2 := by
+    unfold field
+    rw [show 14 + 8 * i = (9 + 8 * i) + 5 by omega, ← List.drop_drop, drop_renderProp tag htag es hlen h, hd,
+      List.flatMap_cons]
+    simp only [renderEntry, List.cons_append, List.drop_succ_cons, List.append_assoc]
+    rw [show (4 : Nat) = 3 + 1 from rfl,
+      drop_len_add _ _ 3 1 (length_fmt3 _ (by omega) (by have := hf.1; omega))]
+    show List.take 3 (fmt3 es[i].2 ++ _) = _
+    exact List.take_left' (length_fmt3 _ hf.2.1 hf.2.2)
+  unfold propEntry
+  rw [ha, hv, fieldInt_fmt3 _ (by omega) (by have := hf.1; omega), fieldInt_fmt3 _ hf.2.1 hf.2.2]
+  simp only [Py.ok_bind]
+  split <;> rfl
+
+
+/-- what a rendered entry list means: 0-based atom index and value -/
+def entryVals (es : List (Nat × Int)) : List (Int × Int) := es.map (fun e => ((e.1 : Int) - 1, e.2))
+
+theorem propEntries_renderProp (atoms : Dict Int Attrs) (tag : Str) (htag : tag.length = 6) (es : List (Nat × Int))
+    (hlen : es.length ≤ 999) (h : ∀ e ∈ es, EntryFits e)
+    (hatoms : ∀ e ∈ es, atoms.contains ((e.1 : Int) - 1) = true) :
+    propEntries atoms (renderProp tag es) = .ok (entryVals es) := by
+  unfold propEntries
+  rw [field_renderProp_count tag htag es hlen, fieldInt_fmt3 _ (by omega) (by omega)]
+  simp only [Py.ok_bind, Int.toNat_natCast]
+  rw [mapM_ok _ _ (fun i => (((es.getD i (0, 0)).1 : Int) - 1, (es.getD i (0, 0)).2))]
+  · congr 1
+    unfold entryVals
+    apply List.ext_getElem
+    · simp
+    · intro i h1 h2
+      simp at h1
+      simp [h1]
+  · intro i hi
+    rw [List.mem_range] at hi
+    rw [propEntry_renderProp atoms tag htag es hlen h i hi, if_pos (hatoms _ (List.getElem_mem hi))]
+    simp [hi]
+
+theorem propEntries_renderProp_reject (atoms : Dict Int Attrs) (tag : Str) (htag : tag.length = 6)
+    (es : List (Nat × Int)) (hlen : es.length ≤ 999) (h : ∀ e ∈ es, EntryFits e)
+    (hbad : ∃ e ∈ es, atoms.contains ((e.1 : Int) - 1) = false) :
+    propEntries atoms (renderProp tag es) = .error parserException := by
+  unfold propEntries
+  rw [field_renderProp_count tag htag es hlen, fieldInt_fmt3 _ (by omega) (by omega)]
+  simp only [Py.ok_bind, Int.toNat_natCast]
+  apply mapM_reject
+  · intro i hi
+    rw [List.mem_range] at hi
+    rw [propEntry_renderProp atoms tag htag es hlen h i hi]
+    split
+    · exact Or.inl ⟨_, rfl⟩
+    · exact Or.inr rfl
+  · obtain ⟨e, he, hc⟩ := hbad
+    obtain ⟨i, hi, rfl⟩ := List.getElem_of_mem he
+    refine ⟨i, List.mem_range.2 hi, ?_⟩
+    rw [propEntry_renderProp atoms tag htag es hlen h i hi, hc]
+    rfl
+
+/-- **item 2**: the entries of a rendered property line are read back (0-based atom indices);
+an atom number that is not an atom is rejected -/
+theorem _parse_atom_value_assignments_ok (env : DepEnv) (atoms : Dict Int Attrs) (tag : Str) (htag : tag.length = 6)
+    (es : List (Nat × Int)) (hlen : es.length ≤ 999) (h : ∀ e ∈ es, EntryFits e)
+    (hatoms : ∀ e ∈ es, atoms.contains ((e.1 : Int) - 1) = true) :
+    _parse_atom_value_assignments env (renderProp tag es) atoms = .ok (entryVals es) := by
+  rw [_parse_atom_value_assignments_eq]; exact propEntries_renderProp atoms tag htag es hlen h hatoms
+
+theorem _parse_atom_value_assignments_reject (env : DepEnv) (atoms : Dict Int Attrs) (tag : Str)
+    (htag : tag.length = 6) (es : List (Nat × Int)) (hlen : es.length ≤ 999) (h : ∀ e ∈ es, EntryFits e)
+    (hbad : ∃ e ∈ es, atoms.contains ((e.1 : Int) - 1) = false) :
+    _parse_atom_value_assignments env (renderProp tag es) atoms = .error (Err.custom "MolfileParserException") := by
+  rw [_parse_atom_value_assignments_eq]; exact propEntries_renderProp_reject atoms tag htag es hlen h hbad
+
+/-! ### item 4, stated on the text of the property block -/
+
+/-- **item 4 (accepting path)**: if the property lines up to `M  END` read as `pl`, the block succeeds;
+the atoms and their order are unchanged and every attribute of every atom is as `specGet` says -/
+theorem _parse_attribute_block_ok (env : DepEnv) (lines : List Str) (atoms : Dict Int Attrs)
+    (pl : List (Kind × List (Int × Int))) (hwf : WF atoms) (hpl : propLines atoms lines = .ok pl) :
+    ∃ r, _parse_attribute_block env lines atoms = .ok r ∧ r.keys = atoms.keys ∧
+      ∀ a old, atoms.get? a = some old →
+        ∃ new, r.get? a = some new ∧ (WF old → WF new) ∧ ∀ k, new.get? k = specGet pl a old k := by
+  refine ⟨applyProps pl atoms, ?_, applyProps_keys pl atoms, fun a old h => applyProps_get? pl atoms a old h⟩
+  rw [_parse_attribute_block_eq env lines atoms hwf, hpl]; rfl
+
+/-- **item 4 (rejecting paths)**: a missing `M  END`, an unknown atom number or a malformed number field -/
+theorem _parse_attribute_block_reject (env : DepEnv) (lines : List Str) (atoms : Dict Int Attrs) (e : Err)
+    (hwf : WF atoms) (hpl : propLines atoms lines = .error e) :
+    _parse_attribute_block env lines atoms = .error e := by
+  rw [_parse_attribute_block_eq env lines atoms hwf, hpl]; rfl
+
+/-- a line of the property block as a writer produces it -/
+inductive Item where
+  | prop (K : Kind) (es : List (Nat × Int))
+  | other (s : Str)
+
+def Item.render : Item → Str
+  | .prop K es => renderProp K.tag es
+  | .other s => s
+
+/-- what the line says -/
+def Item.parsed : Item → Option (Kind × List (Int × Int))
+  | .prop K es => some (K, entryVals es)
+  | .other _ => none
+
+/-- legal lines: the numbers fit their columns and the atom numbers denote atoms; other lines are neither
+CHG/RAD/ISO lines nor `M  END` (e.g. `M  STY…`, `G  …`, `V  …`, `A  …`) -/
+def Item.Legal (atoms : Dict Int Attrs) : Item → Prop
+  | .prop _ es => es.length ≤ 999 ∧ (∀ e ∈ es, EntryFits e) ∧ ∀ e ∈ es, atoms.contains ((e.1 : Int) - 1) = true
+  | .other s => lineKind s = none ∧ s ≠ endLine
+
+theorem lineKind_renderProp (K : Kind) (es : List (Nat × Int)) : lineKind (renderProp K.tag es) = some K := by
+  cases K <;> simp [lineKind, renderProp, Kind.tag, startswith, List.isPrefixOf]
+
+theorem tag_length (K : Kind) : K.tag.length = 6 := by cases K <;> rfl
+
+theorem scanProps_cons (atoms : Dict Int Attrs) (l : Str) (ls : List Str) :
+    scanProps atoms (l :: ls) = (match lineKind l with
+      | some K => do
+        let es ← propEntries atoms l
+        let r ← scanProps atoms ls
+        pure ((K, es) :: r.1, r.2)
+      | none => if l = endLine then pure ([], true) else scanProps atoms ls) := by
+  rw [scanProps]
+  cases lineKind l <;> rfl
+
+theorem scanProps_render (atoms : Dict Int Attrs) (items : List Item) (h : ∀ it ∈ items, it.Legal atoms)
+    (rest : List Str) :
+    scanProps atoms (items.map Item.render ++ rest) = (do
+      let r ← scanProps atoms rest
+      pure (items.filterMap Item.parsed ++ r.1, r.2)) := by
+  induction items with
+  | nil => simp; cases scanProps atoms rest <;> rfl
+  | cons it items ih =>
+    have hit := h it (by simp)
+    have ih' := ih (fun x hx => h x (by simp [hx]))
+    cases it with
+    | prop K es =>
+      obtain ⟨h1, h2, h3⟩ := hit
+      simp only [List.map_cons, List.cons_append, Item.render]
+      rw [scanProps_cons, lineKind_renderProp]
+      simp only [propEntries_renderProp atoms K.tag (tag_length K) es h1 h2 h3, Py.ok_bind, ih']
+      cases scanProps atoms rest with
+      | error e => rfl
+      | ok r => simp [Item.parsed, List.filterMap_cons]
+    | other s =>
+      obtain ⟨h1, h2⟩ := hit
+      simp only [List.map_cons, List.cons_append, Item.render]
+      rw [scanProps_cons, h1]
+      simp only [h2, if_false, ih']
+      cases scanProps atoms rest with
+      | error e => rfl
+      | ok r => simp [Item.parsed, List.filterMap_cons]
+
+/-- legal lines followed by `M  END` (and anything after it) read as what they say -/
+theorem propLines_render (atoms : Dict Int Attrs) (items : List Item) (h : ∀ it ∈ items, it.Legal atoms)
+    (post : List Str) :
+    propLines atoms (items.map Item.render ++ endLine :: post) = .ok (items.filterMap Item.parsed) := by
+  unfold propLines
+  rw [scanProps_render atoms items h]
+  have : scanProps atoms (endLine :: post) = .ok ([], true) := by
+    rw [scanProps_cons, lineKind_endLine]; simp
+  simp [this]
+
+/-- without `M  END` the block is rejected -/
+theorem propLines_render_noEnd (atoms : Dict Int Attrs) (items : List Item) (h : ∀ it ∈ items, it.Legal atoms) :
+    propLines atoms (items.map Item.render) = .error parserException := by
+  unfold propLines
+  have := scanProps_render atoms items h []
+  rw [List.append_nil] at this
+  rw [this]
+  simp [scanProps]
+
+/-- an unknown atom number in a property line before `M  END` is rejected -/
+theorem propLines_render_badAtom (atoms : Dict Int Attrs) (items : List Item) (h : ∀ it ∈ items, it.Legal atoms)
+    (K : Kind) (es : List (Nat × Int)) (hlen : es.length ≤ 999) (hfit : ∀ e ∈ es, EntryFits e)
+    (hbad : ∃ e ∈ es, atoms.contains ((e.1 : Int) - 1) = false) (post : List Str) :
+    propLines atoms (items.map Item.render ++ renderProp K.tag es :: post) = .error parserException := by
+  unfold propLines
+  rw [scanProps_render atoms items h]
+  have : scanProps atoms (renderProp K.tag es :: post) = .error parserException := by
+    rw [scanProps_cons, lineKind_renderProp]
+    simp only [propEntries_renderProp_reject atoms K.tag (tag_length K) es hlen hfit hbad]
+    rfl
+  simp [this]
+
+/-- **C08, property block**: the composition of the above -/
+theorem _parse_attribute_block_render_ok (env : DepEnv) (atoms : Dict Int Attrs) (hwf : WF atoms)
+    (items : List Item) (h : ∀ it ∈ items, it.Legal atoms) (post : List Str) :
+    ∃ r, _parse_attribute_block env (items.map Item.render ++ endLine :: post) atoms = .ok r ∧
+      r.keys = atoms.keys ∧
+      ∀ a old, atoms.get? a = some old →
+        ∃ new, r.get? a = some new ∧ (WF old → WF new) ∧
+          ∀ k, new.get? k = specGet (items.filterMap Item.parsed) a old k :=
+  _parse_attribute_block_ok env _ atoms _ hwf (propLines_render atoms items h post)
+
+theorem _parse_attribute_block_render_noEnd (env : DepEnv) (atoms : Dict Int Attrs) (hwf : WF atoms)
+    (items : List Item) (h : ∀ it ∈ items, it.Legal atoms) :
+    _parse_attribute_block env (items.map Item.render) atoms = .error (Err.custom "MolfileParserException") :=
+  _parse_attribute_block_reject env _ atoms _ hwf (propLines_render_noEnd atoms items h)
+
+theorem _parse_attribute_block_render_badAtom (env : DepEnv) (atoms : Dict Int Attrs) (hwf : WF atoms)
+    (items : List Item) (h : ∀ it ∈ items, it.Legal atoms)
+    (K : Kind) (es : List (Nat × Int)) (hlen : es.length ≤ 999) (hfit : ∀ e ∈ es, EntryFits e)
+    (hbad : ∃ e ∈ es, atoms.contains ((e.1 : Int) - 1) = false) (post : List Str) :
+    _parse_attribute_block env (items.map Item.render ++ renderProp K.tag es :: post) atoms =
+      .error (Err.custom "MolfileParserException") :=
+  _parse_attribute_block_reject env _ atoms _ hwf (propLines_render_badAtom atoms items h K es hlen hfit hbad post)
+
 end Contracts.V2000
